@@ -412,15 +412,24 @@ func c01OpRun3(c *Case, rng *Rng, binds []c01Bind3, failBudget int, x0 []c01Ev, 
 			continue
 		}
 		if b.group != "" {
-			last := map[int]int{}
+			// executions of different queues are not ordered by their start time (the snapshots are read
+			// before the process starts): the property asks for SOME Group execution that reflects the change
+			var views []string
+			seenView := map[string]bool{}
 			for _, e := range execs {
 				for _, cx := range e.ctxs {
 					if v, ok := cx.snaps[b.name]; ok {
-						last = v
+						if vs := c01StateStr(v); !seenView[vs] {
+							seenView[vs] = true
+							views = append(views, vs)
+						}
 					}
 				}
 			}
-			c.Oracle(fmt.Sprintf("op-group binding=%s last=%s final=%s", b.name, c01StateStr(last), c01StateStr(truth)))
+			if len(views) == 0 {
+				views = []string{"-"}
+			}
+			c.Oracle(fmt.Sprintf("op-group-any binding=%s views=%s final=%s", b.name, strings.Join(views, "|"), c01StateStr(truth)))
 			continue
 		}
 		type tok struct {
